@@ -722,9 +722,11 @@ func (p *connectedPlayer) switchToConfigState() {
 	}
 
 	p.pendingConfigurationSwitch = true
-	p.MinecraftConn.Writer().SetState(state.Config)
-	// Make sure we don't send any play packets to the player after update start
-	p.MinecraftConn.EnablePlayPacketQueue()
+	// Make sure we don't send any play packets to the player after update start:
+	// switch the writer to the config state and start queueing play packets in one
+	// step (under the connection's lock), so that a concurrently written play packet
+	// can not slip in between and fail to encode in the config state.
+	p.MinecraftConn.SetOutboundState(state.Config)
 
 	_ = p.Flush() // Trigger switch finally
 }
